@@ -34,7 +34,16 @@ def generate(rng, n, tier, stats):
         i = rng.randrange(nd); r = a['dims'][i] if rng.random() < 0.5 else i
         labs = a['labels'][i]; ln = len(labs)
         if fam == 'sort_axis':
-            cases.append({'ins': [a], 'ops': [['sort_axis', r]]})
+            labs_ = a['labels'][a['dims'].index(r) if isinstance(r, str) else r]
+            kk = rng.choice(['none', 'none', 'neg', 'dict', 'fun'])
+            if kk == 'neg' and any(isinstance(x, str) for x in labs_): kk = 'dict'
+            stats['sort_key'][kk] += 1
+            if kk == 'none': key = None
+            elif kk == 'neg': key = ['neg', list(labs_)]
+            else:
+                ranks = [rng.randint(0, 3) for _ in labs_]          # ties: the sort is stable
+                key = [kk, [[l, k] for l, k in zip(labs_, ranks)]]
+            cases.append({'ins': [a], 'ops': [['sort_axis', r] + ([key] if key else [])]})
         elif fam == 'take_axis':
             if rng.random() < 0.5:
                 idx = [rng.choice(labs) for _ in range(rng.randint(0, 4))]
@@ -85,7 +94,10 @@ def oracle(case, res):
     if o[0] == 'sort_axis':
         p = pos_of(o[1]); labs = a['labels'][p]
         if res[0] == 'err': return 'sort_axis raised %s' % res[1]
-        order = sorted(range(len(labs)), key=lambda j: labs[j])
+        key = o[2] if len(o) > 2 else None
+        if key is None: order = sorted(range(len(labs)), key=lambda j: labs[j])
+        elif key[0] == 'neg': order = sorted(range(len(labs)), key=lambda j: -labs[j])
+        else: order = sorted(range(len(labs)), key=lambda j: key[1][j][1])       # stable: ties keep their order
         return expect_take(p, order, res[1]['v'])
     if o[0] == 'take_axis':
         _, idx, r, mode = o; p = pos_of(r); labs = a['labels'][p]
